@@ -96,6 +96,8 @@ def parseStrBody : List Char → List Char → Bool → Option Nat → Option (O
         else none
     else if c.toNat < 32 then none
     else parseStrBody r (c :: acc) (ok && hi.isNone) none
+termination_by cs => cs.length
+decreasing_by all_goals (simp_wf; try omega)
 
 /-- maximal run of decimal digits -/
 def takeDigits : List Char → List Char × List Char
@@ -119,49 +121,59 @@ def classifyInt (neg : Bool) (ds : List Char) : Json :=
     if n < 18446744073709551616 then .num (n : Int)
     else .flt (String.ofList ds)
 
-/-- optional exponent; `pre` = source text so far (reversed), `isFloat` = a fraction was read -/
+/-- optional exponent; `pre` = source text so far, `isFloat` = a fraction was read -/
 def parseExp (neg : Bool) (ids : List Char) (pre : List Char) (isFloat : Bool) (r : List Char) :
     Option (Json × List Char) :=
   match r with
+  | [] => if isFloat then some (.flt (String.ofList pre), r) else some (classifyInt neg ids, r)
   | e :: r1 =>
     if e = 'e' ∨ e = 'E' then
-      let (sign, r2) :=
+      let sr : List Char × List Char :=
         match r1 with
-        | s :: r2 => if s = '+' ∨ s = '-' then ([s], r2) else ([], r1)
         | [] => ([], r1)
-      let (ed, r3) := takeDigits r2
-      if ed.isEmpty then none
-      else some (.flt (String.ofList (pre ++ e :: sign ++ ed)), r3)
+        | s :: r2 => if s = '+' ∨ s = '-' then ([s], r2) else ([], r1)
+      let er := takeDigits sr.2
+      if er.1.isEmpty then none
+      else some (.flt (String.ofList (pre ++ e :: sr.1 ++ er.1)), er.2)
     else if isFloat then some (.flt (String.ofList pre), r) else some (classifyInt neg ids, r)
-  | [] => if isFloat then some (.flt (String.ofList pre), r) else some (classifyInt neg ids, r)
 
 /-- optional fraction -/
 def parseFrac (neg : Bool) (ids : List Char) (pre : List Char) (r : List Char) :
     Option (Json × List Char) :=
   match r with
-  | '.' :: r1 =>
-    let (fd, r2) := takeDigits r1
-    if fd.isEmpty then none else parseExp neg ids (pre ++ '.' :: fd) true r2
-  | _ => parseExp neg ids pre false r
+  | [] => parseExp neg ids pre false r
+  | c :: r1 =>
+    if c = '.' then
+      let fr := takeDigits r1
+      if fr.1.isEmpty then none else parseExp neg ids (pre ++ '.' :: fr.1) true fr.2
+    else parseExp neg ids pre false r
 
-/-- `parse_any_number` on input starting with `-` or a digit. -/
-def parseNumber (cs : List Char) : Option (Json × List Char) :=
-  let (neg, cs1) :=
-    match cs with
-    | '-' :: r => (true, r)
-    | _ => (false, cs)
-  let sign := if neg then ['-'] else []
-  match cs1 with
+/-- digits of the integer part: `0` alone (a following digit is the error "leading zero") or a
+run starting with a non-zero digit -/
+def parseUnsigned (neg : Bool) (sign : List Char) (cs : List Char) : Option (Json × List Char) :=
+  match cs with
   | [] => none
   | c :: r =>
     if c = '0' then
       match r with
-      | d :: _ => if isDigit d then none else parseFrac neg ['0'] (sign ++ ['0']) r
       | [] => parseFrac neg ['0'] (sign ++ ['0']) r
+      | d :: _ => if isDigit d then none else parseFrac neg ['0'] (sign ++ ['0']) r
     else if isDigit c then
-      let (ds, r') := takeDigits r
-      parseFrac neg (c :: ds) (sign ++ c :: ds) r'
+      let dr := takeDigits r
+      parseFrac neg (c :: dr.1) (sign ++ c :: dr.1) dr.2
     else none
+
+/-- `parse_any_number` on input starting with `-` or a digit. -/
+def parseNumber (cs : List Char) : Option (Json × List Char) :=
+  match cs with
+  | [] => none
+  | c :: r => if c = '-' then parseUnsigned true ['-'] r else parseUnsigned false [] (c :: r)
+
+/-- `parse_ident`: the rest of a literal -/
+def stripPrefix : List Char → List Char → Option (List Char)
+  | [], cs => some cs
+  | _ :: _, [] => none
+  | p :: ps, c :: cs => if p = c then stripPrefix ps cs else none
 
 mutual
 /-- one value, leading white space allowed -/
@@ -171,18 +183,9 @@ def parseValue : Nat → List Char → Option (Json × List Char)
     match skipWs cs with
     | [] => none
     | c :: r =>
-      if c = 'n' then
-        match r with
-        | 'u' :: 'l' :: 'l' :: r' => some (.null, r')
-        | _ => none
-      else if c = 't' then
-        match r with
-        | 'r' :: 'u' :: 'e' :: r' => some (.bool true, r')
-        | _ => none
-      else if c = 'f' then
-        match r with
-        | 'a' :: 'l' :: 's' :: 'e' :: r' => some (.bool false, r')
-        | _ => none
+      if c = 'n' then (stripPrefix ['u', 'l', 'l'] r).map fun r' => (.null, r')
+      else if c = 't' then (stripPrefix ['r', 'u', 'e'] r).map fun r' => (.bool true, r')
+      else if c = 'f' then (stripPrefix ['a', 'l', 's', 'e'] r).map fun r' => (.bool false, r')
       else if c = '"' then
         match parseStrBody r [] true none with
         | some (some s, r') => some (.str s, r')
@@ -190,24 +193,28 @@ def parseValue : Nat → List Char → Option (Json × List Char)
         | none => none
       else if c = '[' then
         match skipWs r with
-        | ']' :: r' => some (.arr [], r')
-        | _ =>
-          match parseValue fuel r with
-          | some (v, r1) =>
-            match parseElems fuel r1 with
-            | some (vs, r2) => some (.arr (v :: vs), r2)
+        | [] => none
+        | c2 :: r' =>
+          if c2 = ']' then some (.arr [], r')
+          else
+            match parseValue fuel r with
+            | some (v, r1) =>
+              match parseElems fuel r1 with
+              | some (vs, r2) => some (.arr (v :: vs), r2)
+              | none => none
             | none => none
-          | none => none
       else if c = '{' then
         match skipWs r with
-        | '}' :: r' => some (.obj [], r')
-        | _ =>
-          match parseMember fuel r with
-          | some (kv, r1) =>
-            match parseMembers fuel r1 with
-            | some (kvs, r2) => some (.obj (kv :: kvs), r2)
+        | [] => none
+        | c2 :: r' =>
+          if c2 = '}' then some (.obj [], r')
+          else
+            match parseMember fuel r with
+            | some (kv, r1) =>
+              match parseMembers fuel r1 with
+              | some (kvs, r2) => some (.obj (kv :: kvs), r2)
+              | none => none
             | none => none
-          | none => none
       else if c = '-' ∨ isDigit c then parseNumber (c :: r)
       else none
 /-- after an element: `,` element … `]` -/
@@ -215,45 +222,53 @@ def parseElems : Nat → List Char → Option (List Json × List Char)
   | 0, _ => none
   | fuel + 1, cs =>
     match skipWs cs with
-    | ',' :: r =>
-      match parseValue fuel r with
-      | some (v, r1) =>
-        match parseElems fuel r1 with
-        | some (vs, r2) => some (v :: vs, r2)
+    | [] => none
+    | c :: r =>
+      if c = ',' then
+        match parseValue fuel r with
+        | some (v, r1) =>
+          match parseElems fuel r1 with
+          | some (vs, r2) => some (v :: vs, r2)
+          | none => none
         | none => none
-      | none => none
-    | ']' :: r => some ([], r)
-    | _ => none
+      else if c = ']' then some ([], r)
+      else none
 /-- `"key" : value` – the key is always read strictly -/
 def parseMember : Nat → List Char → Option ((String × Json) × List Char)
   | 0, _ => none
   | fuel + 1, cs =>
     match skipWs cs with
-    | '"' :: r =>
-      match parseStrBody r [] true none with
-      | some (some k, r1) =>
-        match skipWs r1 with
-        | ':' :: r2 =>
-          match parseValue fuel r2 with
-          | some (v, r3) => some ((k, v), r3)
-          | none => none
+    | [] => none
+    | c :: r =>
+      if c = '"' then
+        match parseStrBody r [] true none with
+        | some (some k, r1) =>
+          match skipWs r1 with
+          | [] => none
+          | c2 :: r2 =>
+            if c2 = ':' then
+              match parseValue fuel r2 with
+              | some (v, r3) => some ((k, v), r3)
+              | none => none
+            else none
         | _ => none
-      | _ => none
-    | _ => none
+      else none
 /-- after a member: `,` member … `}` -/
 def parseMembers : Nat → List Char → Option (List (String × Json) × List Char)
   | 0, _ => none
   | fuel + 1, cs =>
     match skipWs cs with
-    | ',' :: r =>
-      match parseMember fuel r with
-      | some (kv, r1) =>
-        match parseMembers fuel r1 with
-        | some (kvs, r2) => some (kv :: kvs, r2)
+    | [] => none
+    | c :: r =>
+      if c = ',' then
+        match parseMember fuel r with
+        | some (kv, r1) =>
+          match parseMembers fuel r1 with
+          | some (kvs, r2) => some (kv :: kvs, r2)
+          | none => none
         | none => none
-      | none => none
-    | '}' :: r => some ([], r)
-    | _ => none
+      else if c = '}' then some ([], r)
+      else none
 end
 
 /-- A whole document: one value, then only white space. -/
